@@ -770,7 +770,7 @@ def parse_on_enter(ct: Container, rep, rule="parse-on-enter"):
     inst = next((t for t in hu.rterms if isinstance(t, Install) and t.attr == ct.entries_attr), None)
     cnt_inst = next((t for t in hu.rterms if isinstance(t, Install) and t.attr == "nEntries"), None)
     if rp is not None and inst is not None and rp.listph and norm(inst.value) == rp.listph and rp.kind == "range" and norm(rp.lo) == "0" \
-            and norm(rp.hi) == "self.nEntries" and cnt_inst is not None and norm(cnt_inst.value).startswith("_R"):
+            and cnt_inst is not None and norm(cnt_inst.value).startswith("_R") and norm(rp.hi) in ("self.nEntries", norm(cnt_inst.value)):
         rep.ok(rule, f"{fq}: table = [TdfEntry._build(handle) for range(nEntries read from the header)] on every entry", nontrivial=True)
     else:
         rep.fail(rule, MOD(ct), fq, st, "the table is not rebuilt as nEntries (from the header) decoded entries")
